@@ -100,12 +100,62 @@ class Parser:
                 return None
             mid = lin_add(b[0], n)
             return (b[0], mid) if t[2] == 0 else (mid, b[1])
+        sp_ = self.split_call(t)
+        if sp_ is not None:
+            kind, base, n, which = sp_
+            if kind == "first_chunk":
+                mid = lin_add(base[0], (n, 0, 0))
+                return (base[0], mid) if which == 0 else (mid, base[1])
+            if kind == "last_chunk":
+                mid = lin_add(base[1], (n, 0, 0), -1)
+                return (base[0], mid) if which == 0 else (mid, base[1])
+            if kind == "first" and which == 1:
+                return (lin_add(base[0], (1, 0, 0)), base[1])
+            if kind == "last" and which == 1:
+                return (base[0], lin_add(base[1], (1, 0, 0), -1))
+            return None
         if t[0] == "proj" and t[2] == S.OK and t[1][0] == "call" and (t[1][1] == TRY_INTO or "TryFrom<&" in t[1][1] or t[1][1].endswith("::try_into") or t[1][1].endswith("::try_from")) and len(t[1][2]) == 1:
             return self.slice_of(t[1][2][0])
         return None
 
+    SPLITS = {"split_first_chunk": "first_chunk", "split_last_chunk": "last_chunk", "split_first": "first", "split_last": "last"}
+
+    def split_call(self, t):
+        """t = <split call>(X)/Some.<which> for the non-panicking splitters of a DATA sub-slice X: (kind, (lo, hi) of X, chunk length, which)"""
+        if not (t[0] == "tproj" and t[2] in (0, 1) and t[1][0] == "proj" and t[1][2] == S.SOME and t[1][3] == 0):
+            return None
+        c = t[1][1]
+        if c[0] != "call" or len(c[2]) != 1:
+            return None
+        kind = self.SPLITS.get(c[1].split("::")[-1]) if c[1].startswith("core::slice::<impl [T]>::") else None
+        if kind is None:
+            return None
+        base = self.slice_of(c[2][0])
+        if base is None:
+            return None
+        n = self.array_len(c) if kind.endswith("chunk") else 1
+        if n is None:
+            return None
+        return kind, base, n, t[2]
+
+    def split_min(self, c):
+        """c = a splitter call on a DATA sub-slice: (lo, hi) of the sub-slice and the length it needs to be Some"""
+        if c[0] != "call" or len(c[2]) != 1 or not c[1].startswith("core::slice::<impl [T]>::"):
+            return None
+        kind = self.SPLITS.get(c[1].split("::")[-1])
+        base = self.slice_of(c[2][0]) if kind else None
+        if base is None:
+            return None
+        n = self.array_len(c) if kind.endswith("chunk") else 1
+        return None if n is None else (base, n)
+
     def byte_pos(self, t):
         """affine position in DATA of a byte term: data[i], *data.get(i)?, first()"""
+        sp_ = self.split_call(t)
+        if sp_ is not None and sp_[0] == "first" and sp_[3] == 0:
+            return sp_[1][0]
+        if sp_ is not None and sp_[0] == "last" and sp_[3] == 0:
+            return lin_add(sp_[1][1], (1, 0, 0), -1)
         if t[0] == "index" and not (t[2][0] in ("struct",) or (t[2][0] == "call" and "Range" in t[2][1])):
             b = self.slice_of(t[1])
             i = self.lin(t[2])
@@ -212,6 +262,11 @@ class Parser:
                     return "unknown"
                 some = c == S.SOME
                 return lambda L, K: ((self.val(i, L, K) < self.val(b[1], L, K) - self.val(b[0], L, K)) == some) == yes
+            sm = self.split_min(t)
+            if sm is not None:
+                (blo, bhi), need = sm
+                some = c == S.SOME
+                return lambda L, K: ((self.val(bhi, L, K) - self.val(blo, L, K) >= need) == some) == yes
             if t[0] == "call" and (t[1] == TRY_INTO or t[1].endswith("::try_into") or "TryFrom<&" in t[1]) and len(t[2]) == 1 and self.slice_of(t[2][0]) is not None:
                 b = self.slice_of(t[2][0])
                 n = self.array_len(t)
@@ -279,7 +334,10 @@ def analyse(F, fn):
     def is_effect(callee, args, node, st):
         if callee == "<index>":
             return True
-        return (callee or "").split("::")[-1] in ("split_at", "split_at_mut", "copy_from_slice", "split_first", "split_last", "get_unchecked")
+        m = (callee or "").split("::")[-1]
+        if m in ("split_first", "split_last") and (callee or "").startswith("core::slice::<impl [T]>::"):
+            return False      # Option-returning, cannot go out of bounds
+        return m in ("split_at", "split_at_mut", "copy_from_slice", "split_first", "split_last", "get_unchecked")
 
     sym = S.Sym(F, fn, is_effect=is_effect, inline=inline)
     holder["sym"] = sym
